@@ -101,6 +101,13 @@ def main():
                 i = (ci * 7 + k * 13) % len(behs)
                 b = behs[i]
                 jobs.append({"prog": progs[b["beh"] - 1], "schedule": b["sched"], "tb": None, "options": c, "beh": i, "cfg": ci})
+        # every behaviour once with every option on (the pairings above rotate; this one is complete)
+        allon = dict([(d, True) for d in DUMPS] + SPECIAL + [("_clock", 1000)])
+        dumps = dict([(d, True) for d in DUMPS] + [("_clock", 1000000)])
+        cfgs = cfgs + [allon, dumps]
+        for ci in (len(cfgs) - 2, len(cfgs) - 1):
+            for i, b in enumerate(behs):
+                jobs.append({"prog": progs[b["beh"] - 1], "schedule": b["sched"], "tb": None, "options": cfgs[ci], "beh": i, "cfg": ci})
         traces = []
         nviol_same = 0
         for bname, bdir in builds.items():
